@@ -305,10 +305,64 @@ u_closure(uint64_t idx, void *arg)
         ring64_closure(cap, 0xA1A1A1A1A1A1A1A1ull, 0x00000000000000B2ull);
 }
 
+/* The predicates asked again and again in one straight piece of code, with put / get / clear in between and nothing
+ * else: whatever the header promises the compiler about size/empty/full (the optimised configurations are -O2), each
+ * call reports the queue's state at that moment. Called from every history unit. */
+#define PRED_PROBE(NAME, TYPE)                                                                                          \
+    static __attribute__((noinline)) void NAME##_pred_probe(TYPE *mem, unsigned seed, unsigned out[5][3])                \
+    {                                                                                                                   \
+        NAME rb;                                                                                                        \
+        NAME##_init(&rb, mem, 3);                                                                                       \
+        out[0][0] = NAME##_empty(&rb); out[0][1] = (unsigned)NAME##_size(&rb); out[0][2] = NAME##_full(&rb);            \
+        NAME##_put(&rb, (TYPE)(seed + 1));                                                                              \
+        out[1][0] = NAME##_empty(&rb); out[1][1] = (unsigned)NAME##_size(&rb); out[1][2] = NAME##_full(&rb);            \
+        NAME##_put(&rb, (TYPE)(seed + 2));                                                                              \
+        NAME##_put(&rb, (TYPE)(seed + 3));                                                                              \
+        out[2][0] = NAME##_empty(&rb); out[2][1] = (unsigned)NAME##_size(&rb); out[2][2] = NAME##_full(&rb);            \
+        (void)NAME##_get(&rb);                                                                                          \
+        out[3][0] = NAME##_empty(&rb); out[3][1] = (unsigned)NAME##_size(&rb); out[3][2] = NAME##_full(&rb);            \
+        NAME##_clear(&rb);                                                                                              \
+        out[4][0] = NAME##_empty(&rb); out[4][1] = (unsigned)NAME##_size(&rb); out[4][2] = NAME##_full(&rb);            \
+    }
+PRED_PROBE(octet_ring, uint8_t)
+PRED_PROBE(ring16, uint16_t)
+PRED_PROBE(ring64, uint64_t)
+
+static void
+predicate_probe(uint64_t idx)
+{
+    static const unsigned want[5][3] = { { 1, 0, 0 }, { 0, 1, 0 }, { 0, 3, 1 }, { 0, 2, 0 }, { 1, 0, 0 } };
+    static const char *tn[3] = { "u8", "u16", "u64" };
+    for (int ty = 0; ty < 3; ty++) {
+        unsigned got[5][3];
+        uint8_t m8[3];
+        uint16_t m16[3];
+        uint64_t m64[3];
+        memset(got, 0x5a, sizeof got);
+        if (ty == 0)
+            octet_ring_pred_probe(m8, (unsigned)idx, got);
+        else if (ty == 1)
+            ring16_pred_probe(m16, (unsigned)idx, got);
+        else
+            ring64_pred_probe(m64, (unsigned)idx, got);
+        for (int k = 0; k < 5; k++)
+            if (memcmp(got[k], want[k], sizeof want[k]) != 0) {
+                static const char *when[5] = { "after init", "after one put", "after three puts (capacity 3)", "after a get", "after clear" };
+                char key[32];
+                snprintf(key, sizeof key, "type=%s", tn[ty]);
+                vh_fail("predicates-straight-line", key, "%s: empty=%u size=%u full=%u, expected %u %u %u", when[k], got[k][0], got[k][1], got[k][2],
+                        want[k][0], want[k][1], want[k][2]);
+                break;
+            }
+    }
+    VH_COUNT("predicates asked repeatedly in straight-line code");
+}
+
 static void
 u_history(uint64_t idx, void *arg)
 {
     (void)arg;
+    predicate_probe(idx);
     vh_rng r;
     vh_unit_rng(&r, "history", idx);
     vh_case_tag("history");
@@ -542,4 +596,5 @@ harness_run(void)
     vh_require("history: observed full in drop mode");
     vh_require("history: capacity above 255");
     vh_require("history: capacity of 255..70000 with several wrap-arounds");
+    vh_require("predicates asked repeatedly in straight-line code");
 }
